@@ -110,6 +110,17 @@ func (p *Parser) next() (Token, error) {
 	return p.buf.get(), nil
 }
 
+// nextOrInvalid returns the next token. If there's none (the input ended), it returns an invalid token instead,
+// so that the callers that look at one token and back up when it isn't the one they expect stay in step with the buffer.
+func (p *Parser) nextOrInvalid() Token {
+	t, err := p.next()
+	if err != nil {
+		p.buf.put(Token{})
+		return p.buf.get()
+	}
+	return t
+}
+
 func (p *Parser) backup() {
 	p.buf.backup()
 }
@@ -130,7 +141,7 @@ func (p *Parser) Term() (Term, error) {
 		return nil, err
 	}
 
-	switch t, _ := p.next(); t.kind {
+	switch t := p.nextOrInvalid(); t.kind {
 	case tokenEnd:
 		break
 	default:
@@ -502,7 +513,7 @@ func (p *Parser) term0(maxPriority Integer) (Term, error) {
 	case tokenVariable:
 		return p.variable(t.val)
 	case tokenOpenList:
-		if t, _ := p.next(); t.kind == tokenCloseList {
+		if t := p.nextOrInvalid(); t.kind == tokenCloseList {
 			p.backup()
 			p.backup()
 			break
@@ -510,7 +521,7 @@ func (p *Parser) term0(maxPriority Integer) (Term, error) {
 		p.backup()
 		return p.list()
 	case tokenOpenCurly:
-		if t, _ := p.next(); t.kind == tokenCloseCurly {
+		if t := p.nextOrInvalid(); t.kind == tokenCloseCurly {
 			p.backup()
 			p.backup()
 			break
@@ -597,7 +608,7 @@ func (p *Parser) openClose() (Term, error) {
 	if err != nil {
 		return nil, err
 	}
-	if t, _ := p.next(); t.kind != tokenClose {
+	if t := p.nextOrInvalid(); t.kind != tokenClose {
 		p.backup()
 		return nil, errExpectation
 	}
@@ -677,7 +688,7 @@ func (p *Parser) list() (Term, error) {
 	}
 	args := []Term{arg}
 	for {
-		switch t, _ := p.next(); t.kind {
+		switch t := p.nextOrInvalid(); t.kind {
 		case tokenComma:
 			arg, err := p.arg()
 			if err != nil {
@@ -690,7 +701,7 @@ func (p *Parser) list() (Term, error) {
 				return nil, err
 			}
 
-			switch t, _ := p.next(); t.kind {
+			switch t := p.nextOrInvalid(); t.kind {
 			case tokenCloseList:
 				if len(args) == 1 {
 					return Cons(args[0], rest), nil
@@ -715,7 +726,7 @@ func (p *Parser) curlyBracketedTerm() (Term, error) {
 		return nil, err
 	}
 
-	if t, _ := p.next(); t.kind != tokenCloseCurly {
+	if t := p.nextOrInvalid(); t.kind != tokenCloseCurly {
 		p.backup()
 		return nil, errExpectation
 	}
@@ -724,7 +735,7 @@ func (p *Parser) curlyBracketedTerm() (Term, error) {
 }
 
 func (p *Parser) functionalNotation(functor Atom) (Term, error) {
-	switch t, _ := p.next(); t.kind {
+	switch t := p.nextOrInvalid(); t.kind {
 	case tokenOpenCT:
 		arg, err := p.arg()
 		if err != nil {
@@ -732,7 +743,7 @@ func (p *Parser) functionalNotation(functor Atom) (Term, error) {
 		}
 		args := []Term{arg}
 		for {
-			switch t, _ := p.next(); t.kind {
+			switch t := p.nextOrInvalid(); t.kind {
 			case tokenComma:
 				arg, err := p.arg()
 				if err != nil {
@@ -756,7 +767,7 @@ func (p *Parser) arg() (Term, error) {
 	if arg, err := p.atom(); err == nil {
 		if p.operators.defined(arg) {
 			// Check if this atom is not followed by its own arguments.
-			switch t, _ := p.next(); t.kind {
+			switch t := p.nextOrInvalid(); t.kind {
 			case tokenComma, tokenClose, tokenBar, tokenCloseList:
 				p.backup()
 				return arg, nil
